@@ -498,6 +498,13 @@ func validateNames(b *backend, data *inputBundle, names []string) string {
 				if !hostnameRegex.MatchString(converted) {
 					return name
 				}
+			} else if !isWildcard || strings.HasSuffix(name, ".") {
+				// The reduced name may only be empty for a single-label
+				// wildcard, whose only label is validated below. An email
+				// address without a domain ("user@") or a wildcard label
+				// followed by a bare dot ("*.") leaves no hostname to
+				// validate and must not pass hostname enforcement.
+				return name
 			}
 
 			// When a wildcard is specified, we additionally need to validate
